@@ -259,4 +259,60 @@ theorem bytewise_off (st : St) (bs : List Byte) : (bytewise st bs).1.off = st.of
     · simp only [pushByte, hb, if_true]; rw [foldl_log]; simp only; rw [ih]; simp; omega
     · simp only [pushByte, hb, if_false]; rw [ih]; simp; omega
 
+/-- lines paired with the offsets of their first bytes when they are laid out with one `\n` between -/
+def lineOffsets (off : Nat) : List (List Byte) → Log
+  | [] => []
+  | l :: ls => (off, l) :: lineOffsets (off + l.length + 1) ls
+
+theorem joinNl_length_snoc (first : List Byte) (rest : List (List Byte)) (x : List Byte) :
+    joinNl first (rest ++ [x]) = joinNl first rest ++ 10 :: x := by
+  induction rest generalizing first with
+  | nil => simp [joinNl]
+  | cons l ls ih => simp [joinNl, ih]
+
+/-- log and final state for `first \n l₁ … \n lₙ` fed to an empty buffer at offset `off` -/
+theorem bytewise_joinNl_log (off : Nat) (first : List Byte) (rest : List (List Byte))
+    (hf : (10 : Byte) ∉ first) (hr : ∀ l ∈ rest, (10 : Byte) ∉ l) :
+    (bytewise ⟨[], off⟩ (joinNl first rest)).2 = lineOffsets off (first :: rest).dropLast ∧
+    (bytewise ⟨[], off⟩ (joinNl first rest)).1.leftover = (first :: rest).getLastD [] ∧
+    lineOffsets off (first :: rest) = lineOffsets off (first :: rest).dropLast ++
+      [(off + (joinNl first rest).length - ((first :: rest).getLastD []).length, (first :: rest).getLastD [])] := by
+  induction rest generalizing first off with
+  | nil =>
+    simp only [joinNl, List.dropLast_singleton, lineOffsets, List.getLastD_cons, List.getLastD_nil]
+    rw [bytewise_noNl _ _ ((splitNl_none_iff _).2 hf)]
+    simp
+  | cons l ls ih =>
+    simp only [joinNl]
+    rw [bytewise_append, bytewise_noNl _ _ ((splitNl_none_iff _).2 hf)]
+    simp only [List.nil_append]
+    have hstep : bytewise { leftover := first, off := off + first.length } (10 :: joinNl l ls)
+        = ((bytewise { leftover := [], off := off + first.length + 1 } (joinNl l ls)).1,
+           (off, first) :: (bytewise { leftover := [], off := off + first.length + 1 } (joinNl l ls)).2) := by
+      unfold bytewise
+      simp only [List.foldl_cons, pushByte, if_true]
+      rw [foldl_log]
+      simp
+    rw [hstep]
+    obtain ⟨h1, h2, h3⟩ := ih (off + first.length + 1) l (hr l (by simp)) (fun x hx => hr x (by simp [hx]))
+    simp only
+    refine ⟨?_, ?_, ?_⟩
+    · rw [h1]
+      cases ls <;> simp [lineOffsets, List.dropLast]
+    · rw [h2]
+      cases ls <;> simp [List.getLastD]
+    · have e1 : (first :: l :: ls).dropLast = first :: (l :: ls).dropLast := by
+        cases ls <;> simp [List.dropLast]
+      have e2 : (first :: l :: ls).getLastD [] = (l :: ls).getLastD [] := by
+        cases ls <;> simp [List.getLastD]
+      rw [e1, e2]
+      rw [show lineOffsets off (first :: l :: ls) = (off, first) :: lineOffsets (off + first.length + 1) (l :: ls)
+        from rfl]
+      rw [show lineOffsets off (first :: (l :: ls).dropLast)
+        = (off, first) :: lineOffsets (off + first.length + 1) (l :: ls).dropLast from rfl]
+      rw [h3]
+      simp only [List.cons_append, List.length_append, List.length_cons]
+      congr 4
+      omega
+
 end LB
